@@ -255,7 +255,12 @@ func (level *Level) UnmarshalJSON(text []byte) error {
 
 func (level Level) MarshalJSON() ([]byte, error) {
 	b, err := level.MarshalText()
-	return []byte(fmt.Sprintf("%q", string(b))), err
+	// a JSON string: fmt's %q writes Go escapes (\x01, \a) that a JSON reader rejects
+	j, jerr := json.Marshal(string(b))
+	if err == nil {
+		err = jerr
+	}
+	return j, err
 }
 
 // UnmarshalText implements encoding.TextUnmarshaler.
